@@ -18,3 +18,194 @@ def validate(ctx, name, body, ob):
         return f(ctx, body, ob)
     except Exception as e:  # fail closed
         return False, "predicate %s raised %r" % (name, e)
+
+import mirutil as mu
+
+
+def _closure_body(ctx, parent, n):
+    return ctx.prog.bodies.get("%s::{closure#%d}" % (parent.id, n))
+
+
+@predicate("remove_at_position_of_same_vec")
+def remove_at_position(ctx, body, ob):
+    """`v.iter().position(p).map(|i| v.remove(i))`: the index comes from position() over the very vector
+    the closure removes from, and nothing touches the vector in between."""
+    prog = ctx.prog
+    parent = prog.bodies.get(body.root)
+    if parent is None or body.kind != "Closure":
+        return False, "site is not in a closure"
+    # inside the closure: remove(deref of captured field 0, closure parameter _2)
+    rem = mu.calls(body, r"^std::vec::Vec::<T, A>::remove$")
+    if len(rem) != 1:
+        return False, "expected exactly one Vec::remove in the closure"
+    _, t = rem[0]
+    cdefs = mu.defs_of(body)
+    if mu.origin_local(body, cdefs, mu.op_local(t["args"][1])) != 2:
+        return False, "removed index is not the closure's parameter"
+    a0 = t["args"][0]
+    if a0["o"] not in ("copy", "move"):
+        return False, "remove receiver is not a place"
+    steps = mu.trace_back(body, cdefs, a0["pl"]["l"])
+    last = steps[-1][3] if steps else None
+    if not (last and last.get("k") == "use" and last["op"]["o"] in ("copy", "move") and last["op"]["pl"]["l"] == 1
+            and last["op"]["pl"]["p"] and isinstance(last["op"]["pl"]["p"][0], dict) and last["op"]["pl"]["p"][0].get("f") == 0):
+        return False, "remove receiver is not the captured vector"
+    # in the parent: map(position(iter(deref(&V))), closure[&mut V])
+    defs = mu.defs_of(parent)
+    maps = [(bi, t) for bi, t in mu.calls(parent, r"^std::option::Option::<T>::map$")]
+    for bi, t in maps:
+        cl = mu.op_local(t["args"][1])
+        d = mu.single_def(defs, cl) if cl is not None else None
+        if d is None or d[2].get("k") != "agg" or d[2].get("def") != body.id:
+            continue
+        cap = mu.op_local(d[2]["ops"][0]) if d[2]["ops"] else None
+        capd = mu.single_def(defs, cap) if cap is not None else None
+        if capd is None or capd[2].get("k") != "ref" or not capd[2]["mut"] or capd[2]["pl"]["p"]:
+            return False, "closure does not capture `&mut <local vec>`"
+        vec = capd[2]["pl"]["l"]
+        recv = mu.op_local(t["args"][0])
+        rd = mu.single_def(defs, recv) if recv is not None else None
+        if rd is None or rd[1] != "term" or not rd[2]["callee"]["def"].endswith("as std::iter::Iterator>::position"):
+            return False, "map receiver is not the result of Iterator::position"
+        pos_bi = rd[0]
+        it = mu.op_local(rd[2]["args"][0])
+        chain = mu.trace_back(parent, defs, it)
+        # &mut _it ; _it = slice::iter(_r) ; _r = &(*_d) ; _d = Deref::deref(_g) ; _g = &V
+        calls_seen = []
+        cur = chain
+        base = None
+        node = it
+        for _ in range(8):
+            st = mu.trace_back(parent, defs, node)
+            if not st:
+                break
+            last = st[-1]
+            if last[2] == "term":
+                calls_seen.append((last[1], last[3]["callee"]["def"]))
+                node = mu.op_local(last[3]["args"][0])
+                if node is None:
+                    break
+            else:
+                first = st[0]
+                if first[2] != "term" and first[3].get("k") == "ref" and not first[3]["pl"]["p"]:
+                    base = first[3]["pl"]["l"]
+                break
+        names = [c[1] for c in calls_seen]
+        if not (len(names) == 2 and names[0].endswith("<impl [T]>::iter") and names[1].endswith("as std::ops::Deref>::deref")):
+            return False, "position() is not over `<vec>.iter()` (saw %s)" % names
+        if base != vec:
+            return False, "position() iterates a different vector than the closure removes from"
+        # straight chain iter -> position -> map with no other use of the vector
+        iter_bi = calls_seen[0][0]
+        if parent.blocks[iter_bi]["term"]["target"] != pos_bi or parent.blocks[pos_bi]["term"]["target"] != bi:
+            return False, "iter(), position() and map() are not consecutive"
+        return True, "index is the result of position() over the same vector (local _%d), consecutive calls" % vec
+    return False, "no Option::map call passes this closure"
+
+
+@predicate("opt_record_selected_by_type_code")
+def opt_selected(ctx, body, ob):
+    """unreachable!() in Header::extract_info_from_opt_rr: the record passed in was selected by
+    `rdata.type_code() == TYPE::OPT`, type_code yields OPT only for RData::OPT (or a stored Empty(ty)),
+    and the parser never builds RData::Empty(TYPE::OPT)."""
+    prog, cg = ctx.prog, ctx.cg
+    sites = cg.callsites.get(body.id, [])
+    callers = sorted(set(c.qname for c, _ in sites))
+    if callers != ["simple_dns::Packet::parse"]:
+        return False, "callers are %s, expected only Packet::parse" % callers
+    parent = sites[0][0]
+    # the argument is Option::map(position(.., closure#0), closure#1) and closure#0 tests type_code() == TYPE::OPT
+    c0 = _closure_body(ctx, parent, 0)
+    if c0 is None:
+        return False, "selection closure not found"
+    tc = mu.calls(c0, r"RData::<'a>::type_code$|RData.*::type_code$")
+    eqs = mu.calls(c0, r"TYPE as std::cmp::PartialEq>::eq$")
+    if len(tc) != 1 or len(eqs) != 1:
+        return False, "selection closure is not `type_code() == <TYPE>`"
+    pv = None
+    for a in eqs[0][1]["args"]:
+        d = None
+        l = mu.op_local(a)
+        if l is not None:
+            dd = mu.single_def(mu.defs_of(c0), l)
+            if dd is not None and dd[1] != "term" and dd[2].get("k") == "use":
+                d = prog.promoted_value(dd[2]["op"])
+            elif dd is not None and dd[1] != "term" and dd[2].get("k") == "ref":
+                l2 = dd[2]["pl"]["l"]
+                d2 = mu.single_def(mu.defs_of(c0), l2)
+                if d2 is not None and d2[1] != "term" and d2[2].get("k") == "use":
+                    d = prog.promoted_value(d2[2]["op"])
+        pv = pv or d or prog.promoted_value(a)
+    if pv is None or not pv[0].endswith("rdata::TYPE") or pv[1] != "OPT":
+        return False, "selection closure compares with %s, not TYPE::OPT" % (pv,)
+    # the closure's result is eq()'s result
+    # extract argument flows from the map over position(closure#0)
+    defs = mu.defs_of(parent)
+    ext = [t for _, t in mu.calls(parent, r"extract_info_from_opt_rr$")]
+    if len(ext) != 1:
+        return False, "expected one call of extract_info_from_opt_rr"
+    arg = mu.op_local(ext[0]["args"][1])
+    d = mu.single_def(defs, arg)
+    if d is None or d[1] != "term" or not d[2]["callee"]["def"].endswith("Option::<T>::map"):
+        return False, "argument is not `position(..).map(..)`"
+    recv = mu.single_def(defs, mu.op_local(d[2]["args"][0]))
+    if recv is None or recv[1] != "term" or not recv[2]["callee"]["def"].endswith("::position"):
+        return False, "argument is not selected by position()"
+    pcl = mu.single_def(defs, mu.op_local(recv[2]["args"][1]))
+    if pcl is None or pcl[2].get("def") != c0.id:
+        return False, "position() predicate is not the type_code closure"
+    # type_code(): TYPE::OPT is produced only in the arm of variant OPT; Empty(ty) returns the stored type
+    tcb = prog.find("simple_dns::RData::type_code")
+    if tcb is None:
+        return False, "RData::type_code not found"
+    opt_blocks = [bi for bi, si, s in mu.aggregates(tcb, "rdata::TYPE", "OPT")]
+    sw = [(bi, bl["term"]) for bi, bl in enumerate(tcb.blocks) if bl["term"]["t"] == "switch" and not bl["cleanup"]]
+    if len(sw) != 1 or len(opt_blocks) != 1:
+        return False, "type_code is not a single switch table"
+    adt = prog.adts.get("simple_dns::dns::rdata::RData")
+    vi = [i for i, v in enumerate(adt["variants"]) if v["name"] == "OPT"][0]
+    arms = {int(v): t for v, t in sw[0][1]["arms"]}
+    if arms.get(vi) != opt_blocks[0] or list(arms.values()).count(opt_blocks[0]) != 1 or sw[0][1]["otherwise"] == opt_blocks[0]:
+        return False, "TYPE::OPT is produced for a variant other than RData::OPT"
+    # RData::Empty is built by the parser only when the type is not OPT
+    rp = prog.find("simple_dns::<RData as WireFormat>::parse")
+    if rp is None:
+        return False, "RData::parse not found"
+    empties = mu.aggregates(rp, "rdata::RData", "Empty")
+    eqs = mu.calls(rp, r"TYPE as std::cmp::PartialEq>::eq$")
+    if len(empties) != 1 or len(eqs) != 1:
+        return False, "RData::parse: expected one Empty construction and one TYPE comparison"
+    ebi = empties[0][0]
+    eq_bi, eq_t = eqs[0]
+    pv = None
+    rdefs = mu.defs_of(rp)
+    for a in eq_t["args"]:
+        l = mu.op_local(a)
+        for st in mu.trace_back(rp, rdefs, l):
+            if st[2] != "term" and st[3].get("k") == "use":
+                pv = pv or prog.promoted_value(st[3]["op"])
+    if pv is None or pv[1] != "OPT":
+        return False, "RData::parse does not compare the type with TYPE::OPT"
+    swb = eq_t["target"]
+    swt = rp.blocks[swb]["term"]
+    if swt["t"] != "switch":
+        return False, "comparison result is not branched on"
+    false_t = [t for v, t in swt["arms"] if int(v) == 0]
+    true_t = swt["otherwise"]
+    if not false_t:
+        return False, "unexpected branch shape"
+    dom = mu.dominators(rp)
+    if swb not in dom[ebi] or ebi in mu.reachable_from(rp, true_t):
+        return False, "Empty can be constructed when the type is OPT"
+    # no other constructor of RData::Empty under Packet::parse except field-for-field copies
+    reach = cg.reachable([parent.id])
+    others = []
+    for bid in reach:
+        ob2 = prog.bodies[bid]
+        if ob2.id == rp.id or ob2.name in ("into_owned", "clone"):
+            continue
+        if mu.aggregates(ob2, "rdata::RData", "Empty"):
+            others.append(ob2.qname)
+    if others:
+        return False, "RData::Empty also constructed in %s" % others
+    return True, "selected by type_code()==OPT; type_code gives OPT only for RData::OPT; Empty is built only on the type!=OPT edge"
